@@ -244,6 +244,29 @@ func NameFamilies(thorough bool) []Family {
 		"4.3.2.1.in-addr.arpa", "10.in-addr.arpa.", "255.0.168.192.IN-ADDR.ARPA", "host.3.2.1.in-addr.arpa",
 		"8.b.d.0.1.0.0.2.ip6.arpa", "f.E.d.C.ip6.arpa.", strings.Join(NibbleRun(32, 5), ".") + ".ip6.arpa", "x.a.9.ip6.arpa",
 	})))
+	// look-alike separators and code points that a mapping IDNA profile would rewrite (ideographic and fullwidth full
+	// stops, fullwidth letters and digits, soft hyphen, joiners): the statement's conversion is the raw one, which
+	// treats them as ordinary label characters, so the label structure must not change
+	{
+		seps := []string{"\u3002", "\uff0e", "\uff61", "\u2024", "\u00b7", "\ufe52", "\u200b", "\u00ad", "\u200c", "\u200d", "\u2060"}
+		tmpl := []string{"example.123", "1.2", "a.", ".com", "www.a.-b.com", Rep("a", 40) + "." + Rep("b", 40) + ".com", Rep("a", 63) + "." + Rep("b", 63) + ".c",
+			"a.b.c.d", "_srv.example.com", "4.3.2.1.in-addr.arpa", "host.8.b.d.0.ip6.arpa", "example.com.", "a..b", "xn--e1afmkfd.xn--p1ai", "1.2.3.4"}
+		var xs []string
+		for _, t := range tmpl {
+			for _, sp := range seps {
+				xs = append(xs, strings.ReplaceAll(t, ".", sp), t+sp, sp+t)
+				for i := 0; i < len(t); i++ {
+					if t[i] == '.' {
+						xs = append(xs, t[:i]+sp+t[i+1:], t[:i]+sp+t[i:], t[:i+1]+sp+t[i+1:])
+					}
+				}
+			}
+		}
+		for _, w := range []string{"\uff45\uff58\uff41\uff4d\uff50\uff4c\uff45", "\uff11\uff12\uff13", "\uff21", "\u2460", "\u00df", "\u03c2", "\u0130", "\u212a", "e\u0301", "\u1e9e"} {
+			xs = append(xs, w, w+".com", "example."+w, "a."+w+".b", w+"."+w, "_"+w+".com", "1."+w+".in-addr.arpa", w+".ip6.arpa", "example."+w+".")
+		}
+		fams = append(fams, List("separators", xs))
+	}
 	fams = append(fams, Alpha("alpha_name", []string{"a", "1", "-", "_", ".", "A", "é", "\xff"}, pick(6, 7)))
 	fams = append(fams, Alpha("alpha_arpa", []string{"1", "a", ".", "ip6.arpa", "in-addr.arpa", "0", "A"}, pick(7, 9)))
 
